@@ -169,6 +169,7 @@ Proof.
     { unfold u, update_table. destruct (negb (v1_name_ok flavour tn)); auto.
       destruct (lookup tn (c_tables c)) as [t|] eqn:L; auto.
       assert (t_name t = tn) as N by (destruct HC as [_ H]; now apply H in L as [_ N]).
+      destruct (negb (defs_ok t _)); auto.
       match goal with |- context [if ?b then (t, Some InvalidParam) else _] => destruct b end; auto.
       destruct (add_global_index _ _ _) as [t2|] eqn:Ea; cbn [fst].
       - apply set_table_other. destruct (add_global_index_data _ _ _ _ Ea) as [_ N2]. cbn in N2. congruence.
@@ -179,6 +180,7 @@ Proof.
   - unfold update_table. destruct (negb (v1_name_ok flavour tn)); auto.
     destruct (lookup tn (c_tables c)) as [t|] eqn:L; auto.
     assert (t_name t = tn) as N by (destruct HC as [_ H]; now apply H in L as [_ N]).
+    destruct (negb (defs_ok t defs)); auto.
     assert (forall t2, t_name t2 = tn ->
       lookup n (c_tables (fst (match delete with
                        | None => (set_table c t2, ok_obs (PDesc (describe t2)) [])
